@@ -109,13 +109,56 @@ def run_proof(prop, tier):
 
 
 # ----------------------------------------------------------------------- bounded layer ----
+# Carried bounded families: (origin property, clause regex or None, witness regex or None).  The check
+# of a property also runs the QUICK tier of the origin's bounded layer and takes over the violations
+# whose clause/witness match — the part of that layer which explores a dimension this property's
+# statement speaks about as well (failing watch=True methods for C05, watch=True methods on copies for
+# C06, update/batch contexts opened inside watchers for C04).  Violations that match a known finding of
+# the ORIGIN are that property's business and are dropped here (its own check reports them).
+CARRY = {
+    "C05": [("C07", None, r"class=mraise")],
+    "C06": [("C17", None, r"calls\[(extra|missing)\]")],
+    "C04": [("C03", r"C03/(queued|event)/.*", r"prog=.*(update|batch)")],
+}
+
+
 def run_bounded(prop, tier, seed):
+    res = _run_bounded_one(prop, tier, seed, prop)
+    if res is None or res.get("status") != "ok":
+        return res
+    known = load_known()
+    res["carried"] = []
+    for (origin, cre, wre) in CARRY.get(prop, []):
+        r2 = _run_bounded_one(origin, "quick", seed, "%s.carried-%s" % (prop, origin))
+        if r2 is None or r2.get("status") != "ok":
+            res["carried"].append({"origin": origin, "status": (r2 or {}).get("status", "missing")})
+            continue
+        kept = dropped = 0
+        for v in r2.get("violations", []):
+            if cre is not None and not re.fullmatch(cre, v["clause"]):
+                continue
+            if wre is not None and not re.search(wre, v["witness"]):
+                continue
+            if match_known(known, origin, "bounded", v["clause"], v["witness"]) is not None:
+                dropped += 1
+                continue
+            v = dict(v)
+            v["origin"] = origin
+            res.setdefault("violations", []).append(v)
+            kept += 1
+        res["carried"].append({"origin": origin, "status": "ok", "cases": r2.get("cases"), "clause_re": cre, "witness_re": wre,
+                               "violations_taken_over": kept, "dropped_as_known_findings_of_origin": dropped,
+                               "wall_s": r2.get("wall_s")})
+    return res
+
+
+def _run_bounded_one(prop, tier, seed, tag):
     path = os.path.join(HERE, "bounded", prop.lower() + ".py")
     if not os.path.exists(path):
         return None
     work = os.path.join(HERE, ".work")
     os.makedirs(work, exist_ok=True)
-    out = os.path.join(work, "%s.bounded.%s.json" % (prop, tier))
+    out = os.path.join(work, "%s.bounded.%s.json" % (tag, tier))
     if os.path.exists(out):
         os.unlink(out)
     env = dict(os.environ)
